@@ -153,12 +153,14 @@ type Exec struct {
 	inlineDepth int
 	inlineStack []string
 
-	oldState   *State
-	paramVals  map[string]Val
-	rangeOps   map[string]Val // operands of the range loops currently executing, by index key
-	views      []viewRec          // variables bound to a two-index slice of another variable (possible spare capacity over live elements)
-	paramObjs  map[*types.Var]Val // entry values of the parameters of the function under verification
-	entryStack []*State
+	oldState     *State
+	paramVals    map[string]Val
+	boundNames   []string // names of the quantified variables currently being bound in a spec expression
+	closuresUsed map[*ClosureContract]bool
+	rangeOps     map[string]Val     // operands of the range loops currently executing, by index key
+	views        []viewRec          // variables bound to a two-index slice of another variable (possible spare capacity over live elements)
+	paramObjs    map[*types.Var]Val // entry values of the parameters of the function under verification
+	entryStack   []*State
 
 	unmodelled    map[string]bool
 	stores        map[string]bool
